@@ -9,6 +9,7 @@
 From Coq Require Import NArith List.
 From RS Require Import TW.App TW.AppAbs TW.AppAbs2.
 From RS.Abs Require Import Peel Abs Bridge AbsM AbsM2 BridgeM ReachM.
+From RS Require TW.Worker TW.WorkerSafety TW.WorkerOnceApp TW.WorkerAbs.
 
 Theorem C03_committed_is_sequential_prefix : forall p, prog_valid p = true -> forall g a,
   ReachM.reach cont cltb tltb lpstate (nlps p) (s0 p) (ahandle p) (ainit p) (length (init_events p (nlps p) 0)) a ->
@@ -25,5 +26,21 @@ Theorem C03_commit_bounds_monotone : forall g1 g2 (h : list (Abs.entry cont)), (
   filter (Bridge.belowe cont (below_ts g1)) h.
 Proof. exact filter_below_mono. Qed.
 
+(* process.c / fossil.c level (worker model, TW/WorkerAbs.v): after EVERY script -- deliveries, late hand-backs, cancellations, GVT
+   announcements, fossil collections -- and for every bound g at or below the worker's GVT, what fossil collection has released
+   (all of it below the GVT) followed by the retained history entries below g is exactly the LP's part of the sequential execution
+   below g: nothing released was speculative, nothing committed is missing, duplicated or out of order. *)
+Theorem C03_worker_committed_is_sequential : forall (p : prog) (ck : nat), prog_valid p = true -> WorkerOnceApp.types_okb p = true ->
+  forall (ops : list Worker.wop) (g : N),
+  let w := fold_left (Worker.wstep p ck) ops (Worker.w_init p) in
+  BinInt.Z.le (BinInt.Z.of_N g) (Worker.k_gvt w) ->
+  forall tr, Peel.seqrun cont (Abs.clt cont cltb) lpstate (Bridge.handle_g cont lpstate (ahandle p) (below_ts g)) (s0 p) (Bridge.Pg cont (WorkerAbs.init0 p) (below_ts g)) tr ->
+  forall l, (l < nlps p)%nat -> exists released, (forall y, In y released -> BinInt.Z.lt (BinInt.Z.of_N (WorkerSafety.tm y)) (Worker.k_gvt w)) /\
+    Peel.proj cont l tr = map WorkerAbs.evc (filter (fun y => below_ts g (WorkerAbs.evc y)) (released ++ WorkerAbs.retained w l)) /\
+    (BinInt.Z.of_N g = Worker.k_gvt w ->
+     Peel.proj cont l tr = map WorkerAbs.evc released ++ map WorkerAbs.evc (filter (fun y => below_ts g (WorkerAbs.evc y)) (WorkerAbs.retained w l))).
+Proof. exact WorkerAbs.worker_committed_is_sequential. Qed.
+
 Print Assumptions C03_committed_is_sequential_prefix.
 Print Assumptions C03_commit_bounds_monotone.
+Print Assumptions C03_worker_committed_is_sequential.
